@@ -102,21 +102,35 @@ def disjoint(E, a, b):
     return len(set(E.reach(a)) & set(E.reach(b))) == 0
 
 
-def mk_path(E, kinds=("Move", "Line", "QuadraticBezier", "CubicBezier", "Arc", "Close"), name="p"):
+def set_paint(E, s, name, paint="colour"):
+    """fill and stroke: a colour (any 32-bit value), the paint 'none' (a Color object whose value is None - still a
+    mutable object that a copy must not share) or unset"""
+    kind = E.choice(name + "_paint", ["colour", "none", "unset"]) if paint == "any" else paint
+    if kind == "colour":
+        E.set(s, "stroke", E.new("Color", value=E.int(name + "stroke", 0, 4294967295)))
+        E.set(s, "fill", E.new("Color", value=E.int(name + "fill", 0, 4294967295)))
+    elif kind == "none":
+        E.set(s, "stroke", E.new("Color", value=None))
+        E.set(s, "fill", E.new("Color", value=None))
+    else:
+        E.set(s, "stroke", None)
+        E.set(s, "fill", None)
+
+
+def mk_path(E, kinds=("Move", "Line", "QuadraticBezier", "CubicBezier", "Arc", "Close"), name="p", paint="colour"):
     segs = []
     for i, k in enumerate(kinds):
         segs.append(mk_seg(E, k, "%s%d" % (name, i), start=(i > 0)))
     p = E.construct("Path", *segs)
     E.set(p, "transform", mk_matrix(E, name + "T"))
-    E.set(p, "stroke", E.new("Color", value=E.int(name + "stroke", 0, 4294967295)))
-    E.set(p, "fill", E.new("Color", value=E.int(name + "fill", 0, 4294967295)))
+    set_paint(E, p, name, paint)
     E.set(p, "stroke_width", E.real(name + "sw", POSN))
     return p
 
 
-def mk_shape(E, kind, name="s"):
+def mk_shape(E, kind, name="s", paint="colour"):
     if kind == "Path":
-        return mk_path(E, name=name)
+        return mk_path(E, name=name, paint=paint)
     if kind == "Rect":
         x, y = E.reals(name + "x " + name + "y", NUM)
         w, h, rx, ry = E.reals(" ".join(name + k for k in ("w", "h", "rx", "ry")), POSN)
@@ -134,8 +148,7 @@ def mk_shape(E, kind, name="s"):
     else:
         raise ValueError(kind)
     E.set(s, "transform", mk_matrix(E, name + "T"))
-    E.set(s, "stroke", E.new("Color", value=E.int(name + "stroke", 0, 4294967295)))
-    E.set(s, "fill", E.new("Color", value=E.int(name + "fill", 0, 4294967295)))
+    set_paint(E, s, name, paint)
     E.set(s, "stroke_width", E.real(name + "sw", POSN))
     return s
 
@@ -170,7 +183,7 @@ def _(E, kind):
 @family("C18/copy/shape", SHAPES, funcs=COPY_FUNCS, props=["C18"], kind="S",
         note="list-valued fields (segments, points) have a fixed representative shape: one element of every kind")
 def _(E, kind):
-    s = mk_shape(E, kind)
+    s = mk_shape(E, kind, paint="any")
     before = scalars(E, s)
     c = E.callf("copy", s)
     E.ensure("equal_in_value", same_value(E, c, s))
@@ -183,11 +196,11 @@ def _(E, kind):
         props=["C18"], kind="S")
 def _(E, kind):
     if kind == "Subpath":
-        p = mk_path(E)
+        p = mk_path(E, paint="any")
         src = E.construct("Subpath", p, 0, 3)
         holder = p
     else:
-        src = mk_shape(E, kind)
+        src = mk_shape(E, kind, paint="any")
         holder = src
     d = E.construct("Path", src)
     E.ensure("is_a_Path", E.clsname(d) == "Path")
@@ -199,7 +212,7 @@ def _(E, kind):
 @family("C18/derive/times_matrix", SHAPES, funcs=COPY_FUNCS + ["Transformable.__mul__", "Transformable.__imul__",
                                                                  "Matrix.__imatmul__"], props=["C18", "C02"], kind="S")
 def _(E, kind):
-    s = mk_shape(E, kind)
+    s = mk_shape(E, kind, paint="any")
     M = mk_matrix(E, "M")
     before = scalars(E, s)
     m0 = tuple(mat_fields(M))
@@ -215,7 +228,7 @@ def _(E, kind):
         funcs=COPY_FUNCS + ["Transformable.__abs__", "Path.reify", "SimpleLine.reify", "_Polyshape.reify",
                             "Rect.reify"], props=["C18"], kind="S")
 def _(E, kind):
-    s = mk_shape(E, kind)
+    s = mk_shape(E, kind, paint="any")
     before = scalars(E, s)
     r = E.call(s, "__abs__")
     E.ensure("shares_no_mutable_object_with_the_operand", disjoint(E, r, s))
@@ -229,7 +242,7 @@ def _(E):
     inner = E.construct("Group")
     E.call(inner, "append", mk_shape(E, "SimpleLine", "a"))
     g = E.construct("Group")
-    E.call(g, "append", mk_shape(E, "Rect", "b"))
+    E.call(g, "append", mk_shape(E, "Rect", "b", paint="any"))
     E.call(g, "append", inner)
     E.set(g, "transform", mk_matrix(E, "gT"))
     c = E.callf("copy", g)
